@@ -95,11 +95,21 @@ impl GraphBlock {
                 .map(|line| inlines_to_markdown(line, options))
                 .collect::<Vec<String>>()
                 .join("\n"),
-            GraphBlock::CodeBlock(lang, text) => lang
-                .clone()
-                .filter(|lang| !lang.trim().is_empty())
-                .map(|lang| format!("``` {}\n{}\n```\n", lang, text.trim_matches('\n')))
-                .unwrap_or_else(|| format!("```\n{}\n```\n", text.trim_matches('\n'))),
+            GraphBlock::CodeBlock(lang, text) => {
+                let body = text.trim_matches('\n');
+                // the fence has to be longer than any run of backticks that starts a line of the body
+                let longest = body
+                    .lines()
+                    .map(|line| line.trim_start())
+                    .map(|line| line.chars().take_while(|c| *c == '`').count())
+                    .max()
+                    .unwrap_or(0);
+                let fence = "`".repeat(std::cmp::max(3, longest + 1));
+                lang.clone()
+                    .filter(|lang| !lang.trim().is_empty())
+                    .map(|lang| format!("{} {}\n{}\n{}\n", fence, lang, body, fence))
+                    .unwrap_or_else(|| format!("{}\n{}\n{}\n", fence, body, fence))
+            }
             GraphBlock::RawBlock(_, text) => text.clone(),
             GraphBlock::BlockQuote(blocks) if blocks.is_empty() => String::new(),
             GraphBlock::BlockQuote(blocks) => {
